@@ -407,7 +407,8 @@ def conn_key(c, clock_rel=True):
 
 class TmpDir:
     def __init__(self):
-        self.path = tempfile.mkdtemp(prefix="vf_", dir=os.environ.get("VERIF_TMP") or None)
+        base = os.environ.get("VERIF_TMP") or ("/dev/shm" if os.path.isdir("/dev/shm") and os.access("/dev/shm", os.W_OK) else None)
+        self.path = tempfile.mkdtemp(prefix="vf_", dir=base)
 
     def cleanup(self):
         shutil.rmtree(self.path, ignore_errors=True)
